@@ -195,6 +195,22 @@ impl Population {
             }
         }
         fixed.extend(exact_fit_specs());
+        // framing boundaries: key or value lengths on either side of 2^7 and 2^14 (and 2^21 for
+        // values), with neighbours before and after
+        for len in [127usize, 128, 129, 16383, 16384, 16385] {
+            for (c, lv) in [(0u8, 0u32), (5, 0)] {
+                for l in [0u8, 2] {
+                    for (klen, vlen) in [(len, 3usize), (2, len), (len, len)] {
+                        let shapes = vec![Shape { klen: 1, vlen: 2 }, Shape { klen, vlen }, Shape { klen: 3, vlen: 5 }];
+                        fixed.push(spec_shapes(FileCfg::layout(Some(1024), Some(2), l).with_codec(c, lv), &shapes));
+                    }
+                }
+            }
+        }
+        for len in [(1usize << 21) - 1, 1 << 21, (1 << 21) + 1] {
+            let shapes = vec![Shape { klen: 1, vlen: 2 }, Shape { klen: 2, vlen: len }, Shape { klen: 3, vlen: 5 }];
+            fixed.push(spec_shapes(FileCfg::layout(None, None, 1), &shapes));
+        }
         // zstd level 19 and maximal depth with every codec, on a few files
         for n in [0usize, 3, 9] {
             fixed.push(FileSpec::new(
@@ -244,7 +260,7 @@ impl Population {
                     "files": g.seqs.len() * g.cfgs.len()})
             })
             .collect();
-        v.push(serde_json::json!({"group": "deep, dense, exact-fit (a block reaches exactly the block size), zstd-19 and max-depth files", "files": self.fixed.len()}));
+        v.push(serde_json::json!({"group": "deep, dense, exact-fit (a block reaches exactly the block size), framing-boundary lengths (2^7, 2^14, 2^21 +-1), zstd-19 and max-depth files", "files": self.fixed.len()}));
         serde_json::Value::Array(v)
     }
 }
